@@ -4,7 +4,7 @@ use crate::plan::json_str;
 use std::cell::RefCell;
 use std::collections::{BTreeMap, BTreeSet};
 use std::panic::{self, AssertUnwindSafe};
-use std::sync::atomic::{AtomicU64, Ordering};
+use std::sync::atomic::{AtomicBool, AtomicU64, Ordering};
 
 #[derive(Clone, Debug)]
 pub struct Violation {
@@ -128,8 +128,29 @@ fn fmt_u64(mut x: u64, buf: &mut [u8; 24]) -> &[u8] {
     &buf[i..]
 }
 
+/// Set while a step over an unwound object runs: nothing is promised about such a step, not even termination,
+/// so the watchdog firing there is reported as `TOLERATED` (the run is abandoned, no violation).
+pub static TOLERATE_HANG: AtomicBool = AtomicBool::new(false);
+
 extern "C" fn on_fatal(sig: libc::c_int) {
     // async-signal-safe: only write(2) and _exit(2)
+    if sig == libc::SIGALRM && TOLERATE_HANG.load(Ordering::Relaxed) {
+        let mut b2 = [0u8; 24];
+        let mut b3 = [0u8; 24];
+        let parts: [&[u8]; 5] = [
+            b"\nTOLERATED run=",
+            fmt_u64(CUR_RUN.load(Ordering::Relaxed), &mut b2),
+            b" step=",
+            fmt_u64(CUR_STEP.load(Ordering::Relaxed), &mut b3),
+            b"\n",
+        ];
+        for p in parts.iter() {
+            unsafe {
+                libc::write(1, p.as_ptr() as *const libc::c_void, p.len());
+            }
+        }
+        unsafe { libc::_exit(76) }
+    }
     let mut b1 = [0u8; 24];
     let mut b2 = [0u8; 24];
     let mut b3 = [0u8; 24];
@@ -197,6 +218,10 @@ pub fn limit_memory(bytes: u64) {
         };
         libc::setrlimit(libc::RLIMIT_DATA, &lim);
     }
+}
+
+pub fn watchdog_secs() -> u32 {
+    std::env::var("NBSIM_WATCHDOG_S").ok().and_then(|s| s.parse().ok()).unwrap_or(20)
 }
 
 /// (Re)arm the per-run hang watchdog. Pure hang detector; never influences a terminating run.
